@@ -430,6 +430,7 @@ def limits():
     resource.setrlimit(resource.RLIMIT_CORE, (0, 0))
 
 
+CONFIRMED_HANGS = collections.Counter()
 DIAG = collections.Counter()      # diagnostics (error codes) the CLI answered with: which limits the streams reach
 
 
@@ -439,9 +440,13 @@ def run_cli(cli, args, wd, timeout=20):
         err = p.stderr.decode("utf-8", "replace")
         rc = p.returncode
     except subprocess.TimeoutExpired:
-        if timeout < 100:
-            return run_cli(cli, args, wd, timeout=timeout * 8)     # slow machine or really stuck?
-        return "timeout"
+        key = args[0]
+        if timeout < 100 and CONFIRMED_HANGS[key] < 2:
+            r = run_cli(cli, args, wd, timeout=timeout * 8)     # slow machine or really stuck?
+            if r == "timeout":
+                CONFIRMED_HANGS[key] += 1
+            return r
+        return "timeout"                                            # this command has hung twice at 160 s already
     if rc in (0, 1):
         for m in re.finditer(r"error\[(E\d+)\]", err):
             DIAG[m.group(1)] += 1
@@ -524,6 +529,7 @@ def run(ctx):
     ctx.assumptions = ["Gallina functions are total: the totality half of the property cannot be a theorem about the model; it is explored only",
                        "a crash is attributed to the stage that was running when the worker process died"]
     DIAG.clear()
+    CONFIRMED_HANGS.clear()
     proved = ctx.prove("C07", extracted=["AvbcLayout", "ValueConsts", "AasmEscapes"])
     try:
         import json as _json
@@ -685,6 +691,8 @@ def run(ctx):
                 open(f, "wb").write(data)
                 cmds = [(nm_, [a.replace("{f}", f) for a in args]) for nm_, args, _ in CLI_CMDS[kind] if nm_ != "run" or runnable]
             for cname, args in cmds:
+                if CONFIRMED_HANGS[args[0]] >= 2 and not structured:
+                    continue          # this command already hung twice at 160 s: reported; do not spend the run on repeats
                 res = run_cli(cli, args, wd)
                 cstats[f"{kind}:{cname}:{res.split(':')[0]}"] += 1
                 ctx.cov["evaluations"] += 1
